@@ -16,37 +16,37 @@ Section Delete.
   Lemma isroot_root t : isroot sch t -> root_of sch t = t.
   Proof. intros [_ H]. exact H. Qed.
 
-  (* ---- removing x from the string set b of entity ti of root store t ---- *)
-  Lemma DInv_backref_del (G : gset) st t ti b x :
-    isroot sch t ->
-    (forall f0, In (CSetIdx f0) (cons_of sch t) -> f0 <> b) ->
-    (forall s f nl, In (CFkIndex f t b nl) (cons_of sch s) -> G s x) ->
-    (forall s0 lf, In (lf, t, b) (links_of sch s0) -> G s0 x) ->
+  (* ---- removing x from the string set b of entity ti of (the root store of) store t ---- *)
+  Lemma DInv_backref_del_gen (G : gset) st t ti b x :
+    (forall s0 f0, In (CSetIdx f0) (cons_of sch s0) -> root_of sch s0 = root_of sch t -> f0 <> b) ->
+    (forall s f t1 nl, In (CFkIndex f t1 b nl) (cons_of sch s) -> root_of sch t1 = root_of sch t -> G (root_of sch s) x) ->
+    (forall s0 lf os, In (lf, os, b) (links_of sch s0) -> root_of sch os = root_of sch t -> G (root_of sch s0) x) ->
     DInv G st -> DInv G (backref_del sch st t ti b x) /\ dmono st (backref_del sch st t ti b x).
   Proof.
-    intros Ht Hsi Hfk Hlk [HU [HS [HB [HF [HC HL]]]]].
-    pose proof (isroot_root t Ht) as Hr.
+    intros Hsi Hfk Hlk [HU [HS [HB [HF [HC HL]]]]].
+    set (T := root_of sch t) in *.
     set (st' := backref_del sch st t ti b x).
     assert (Hp : forall s j, present sch st' s j = present sch st s j) by (intros; apply present_backref_del).
     assert (Hg : forall s j f, get_field sch st' s j f = get_field sch st s j f) by (intros; apply get_field_backref_del).
-    assert (Hes : forall r j f z, In z (eset st' r j f) <-> In z (eset st r j f) /\ ~ (r = t /\ j = ti /\ f = b /\ z = x)).
-    { intros. unfold st'. rewrite eset_backref_del, Hr. reflexivity. }
+    assert (Hes : forall r j f z, In z (eset st' r j f) <-> In z (eset st r j f) /\ ~ (r = T /\ j = ti /\ f = b /\ z = x)).
+    { intros. unfold st'. rewrite eset_backref_del. reflexivity. }
     split; [refine (conj _ (conj _ (conj _ (conj _ (conj _ _)))))|refine (conj _ (conj _ (conj _ _)))].
     - intros r f v x0 Hx. unfold st' in Hx. rewrite backref_del_uidx in Hx.
       destruct (HU r f v x0 Hx) as [s [nl [A [B [C [D E]]]]]]. exists s, nl. unfold NoTraceInv.fbytes in *. rewrite Hp, Hg. repeat split; assumption.
     - intros r f v x0 Hx. unfold sbucket, st' in Hx. rewrite backref_del_sidx in Hx.
-      destruct (HS r f v x0 Hx) as [A B]. split; [exact A|]. apply Hes. split; [exact B|].
-      intros [-> [_ [Hf _]]]. exact (Hsi f A Hf).
+      destruct (HS r f v x0 Hx) as [s0 [A0 [A [C B]]]]. exists s0. rewrite Hp. split; [exact A0|]. split; [exact A|]. split; [exact C|].
+      apply Hes. split; [exact B|].
+      intros [E [_ [Hf _]]]. apply (Hsi s0 f A); [congruence | exact Hf].
     - intros s f t0 b0 nl ti0 x0 Hin Hx. apply Hes in Hx as [Hx _]. unfold NoTraceInv.fbytes. rewrite Hp, Hg. apply (HB s f t0 b0 nl ti0 x0 Hin Hx).
-    - intros s f t0 b0 nl y v Hin Hgn Hpy Hf Hn. rewrite Hp in Hpy. rewrite Hg in Hf. apply Hes. split.
-      + apply (HF s f t0 b0 nl y v Hin Hgn Hpy Hf Hn).
-      + intros [-> [_ [-> ->]]]. apply Hgn. eapply Hfk. exact Hin.
-    - intros s f t0 nl y v Hin Hgn Hpy Hf Hn. rewrite Hp in Hpy. rewrite Hg in Hf.
-      intros Hnone. apply (HC s f t0 nl y v Hin Hgn Hpy Hf Hn).
-      apply (get_ent_none_fc st st' t0 v (backref_del_fc sch st t ti b x)). exact Hnone.
-    - intros s lf os of_ x0 t0 Hin Hgn Ht0. apply Hes in Ht0 as [Ht0 _]. apply Hes. split.
-      + apply (HL s lf os of_ x0 t0 Hin Hgn Ht0).
-      + intros [-> [_ [-> ->]]]. apply Hgn. eapply Hlk. exact Hin.
+    - intros s f t0 b0 nl y v Hin Hgn Hpy Hf Hn. rewrite Hp in Hpy. rewrite Hg in Hf.
+      destruct (HF s f t0 b0 nl y v Hin Hgn Hpy Hf Hn) as [A B]. rewrite Hp. split; [|exact B]. apply Hes. split.
+      + exact A.
+      + intros [E1 [_ [-> ->]]]. apply Hgn. eapply Hfk; [exact Hin | exact E1].
+    - intros s f t0 nl y v Hin Hgn Hpy Hf Hn. rewrite Hp in Hpy. rewrite Hg in Hf. rewrite Hp.
+      apply (HC s f t0 nl y v Hin Hgn Hpy Hf Hn).
+    - intros s lf os of_ x0 t0 Hin Hgn Ht0. apply Hes in Ht0 as [Ht0 _].
+      destruct (HL s lf os of_ x0 t0 Hin Hgn Ht0) as [A [B C]]. rewrite !Hp. split; [|split; assumption].
+      apply Hes. split; [exact A|]. intros [E1 [-> [-> ->]]]. apply Hgn. eapply Hlk; [exact Hin | exact E1].
     - intros r f v x0 Hx. unfold st' in Hx. rewrite backref_del_uidx in Hx. exact Hx.
     - intros r f v x0 Hx. unfold sbucket, st' in Hx. rewrite backref_del_sidx in Hx. exact Hx.
     - intros r j f z Hz. apply Hes in Hz as [Hz _]. exact Hz.
@@ -57,16 +57,16 @@ Section Delete.
   Definition CleanK (G : gset) (st : state) (s : name) (x : id) (k : cons) : Prop :=
     match k with
     | CUnique f _ => forall v, al_get v (uidx st (root_of sch s) f) <> Some x
-    | CSetIdx f => forall v, ~ In x (sbucket st s f v)
-    | CFkIndex f t b _ => forall ti, ~ In x (eset st t ti b)
-    | CFkRestrict b => forall s' f nl y, In (CFkIndex f s b nl) (cons_of sch s') -> ~ G s' y -> nonempty x = true ->
+    | CSetIdx f => forall v, ~ In x (sbucket st (root_of sch s) f v)
+    | CFkIndex f t b _ => forall ti, ~ In x (eset st (root_of sch t) ti b)
+    | CFkRestrict b => forall s' f nl y, In (CFkIndex f s b nl) (cons_of sch s') -> ~ G (root_of sch s') y -> nonempty x = true ->
                           present sch st s' y = true -> get_field sch st s' y f <> FStr x
     | CFkCascade rs f _ => forall y, ~ G (root_of sch rs) y -> present sch st rs y = true -> get_field sch st rs y f <> FStr x
     | _ => True
     end.
 
   Definition CleanL (G : gset) (st : state) (x : id) (l : name * name * name) : Prop :=
-    match l with (lf, os, of_) => forall t, ~ G os t -> ~ In x (eset st os t of_) end.
+    match l with (lf, os, of_) => forall t, ~ G (root_of sch os) t -> ~ In x (eset st (root_of sch os) t of_) end.
 
   Lemma CleanK_mono G st st' s x k : dmono st st' -> CleanK G st s x k -> CleanK G st' s x k.
   Proof.
@@ -127,7 +127,6 @@ Section Delete.
     DInv G st' /\ dmono st st' /\ CleanK G st' s x k.
   Proof.
     intros s x Hdel HD HG Hin H. pose proof HD as [HU [HS [HB [HF [HC HL]]]]].
-    pose proof (wp_cons_root sch W s k Hin) as Hroot.
     destruct k as [f nl|f|f t b nl|b|f t nl|rs f cs|]; cbn [before_delete_one] in H; fold s x in H.
     - (* CUnique *)
       set (r := root_of sch s) in *. set (v := fv_bytes (get_field sch st s x f)) in *.
@@ -152,42 +151,38 @@ Section Delete.
       + inversion H; subst st' evs'. clear H. split; [exact HD|]. split; [apply dmono_refl|].
         cbn [CleanK]. fold r. apply Hclean. reflexivity.
     - (* CSetIdx *)
-      destruct Hroot as [Hnc Hr].
       destruct (negb _); [discriminate|]. inversion H; subst st' evs'. clear H.
-      rewrite Hr. set (vals := get_set sch st s x f).
-      assert (Hvals : vals = eset st s x f) by (unfold vals, get_set, eset; rewrite Hr; reflexivity).
-      destruct (DInv_sidx_shrink sch G st (fold_left (fun acc v => sidx_remove acc s f v x) vals st)) as [A B]; [| | |exact HD|].
+      set (r := root_of sch s). set (vals := get_set sch st s x f).
+      assert (Hvals : vals = eset st r x f) by (unfold vals, get_set, eset; reflexivity).
+      destruct (DInv_sidx_shrink sch G st (fold_left (fun acc v => sidx_remove acc r f v x) vals st)) as [A B]; [| | |exact HD|].
       + apply fold_sidx_remove_ents.
       + apply fold_sidx_remove_uidx.
       + intros r0 f0 v0 x0 Hx. apply sbucket_fold_remove in Hx as [Hx _]. exact Hx.
-      + split; [exact A|]. split; [exact B|]. cbn [CleanK]. intros v0 Hx. apply sbucket_fold_remove in Hx as [Hx Hn].
-        apply Hn. repeat split. rewrite Hvals. apply (HS s f v0 x Hx).
+      + split; [exact A|]. split; [exact B|]. cbn [CleanK]. fold r. intros v0 Hx. apply sbucket_fold_remove in Hx as [Hx Hn].
+        apply Hn. repeat split. rewrite Hvals. destruct (HS r f v0 x Hx) as [_ [_ [_ [_ Q]]]]. exact Q.
     - (* CFkIndex *)
-      destruct Hroot as [Hnc Hr]. rewrite Hr in HG.
-      pose proof (wp_fk_t sch W s f t b nl Hin) as Ht. pose proof (isroot_root t Ht) as Hrt.
       set (v := fv_bytes (get_field sch st s x f)) in *.
-      assert (Hclean : forall st1, (forall ti, In x (eset st1 t ti b) -> In x (eset st t ti b) /\ (nonempty v = true -> ti <> v)) ->
-                 forall ti, ~ In x (eset st1 t ti b)).
+      assert (Hclean : forall st1, (forall ti, In x (eset st1 (root_of sch t) ti b) -> In x (eset st (root_of sch t) ti b) /\ (nonempty v = true -> ti <> v)) ->
+                 forall ti, ~ In x (eset st1 (root_of sch t) ti b)).
       { intros st1 E ti Hx. destruct (E ti Hx) as [Hx0 Hne].
         destruct (HB s f t b nl ti x Hin Hx0) as [A [_ C]]. unfold NoTraceInv.fbytes in C. fold v in C.
         apply Hne; [rewrite C; exact A | symmetry; exact C]. }
       destruct (nonempty v) eqn:En.
       + destruct (present sch st t v); [|discriminate]. inversion H; subst st' evs'. clear H.
-        destruct (DInv_backref_del G st t v b x Ht) as [A B]; [| | |exact HD|].
-        * intros f0 Hf0. eapply (wp_disj_sb sch W); eauto.
-        * intros s1 f1 nl1 Hin1. destruct (wp_buniq sch W _ _ _ _ _ _ _ _ Hin1 Hin) as [-> _]. exact HG.
-        * intros s0 lf Hl. exfalso. apply (wp_link_sym sch W) in Hl. eapply (wp_disj_bl sch W); [exact Hin | exact Hl | reflexivity].
+        destruct (DInv_backref_del_gen G st t v b x) as [A B]; [| | |exact HD|].
+        * intros s0 f0 Hf0 Hr0. eapply (wp_disj_sb sch W); [exact Hf0 | exact Hin | symmetry; exact Hr0].
+        * intros s1 f1 t1 nl1 Hin1 Hr1. destruct (wp_buniq sch W _ _ _ _ _ _ _ _ _ Hin1 Hin Hr1) as [-> _]. exact HG.
+        * intros s0 lf os Hl Hro. exfalso. apply (wp_link_sym sch W) in Hl. eapply (wp_disj_bl sch W); [exact Hin | exact Hl | exact Hro | reflexivity].
         * split; [exact A|]. split; [exact B|]. cbn [CleanK]. apply Hclean. intros ti Hx.
-          apply eset_backref_del in Hx as [Hx Hn]. split; [exact Hx|]. intros _ ->. apply Hn. rewrite Hrt. repeat split.
+          apply eset_backref_del in Hx as [Hx Hn]. split; [exact Hx|]. intros _ ->. apply Hn. repeat split.
       + inversion H; subst st' evs'. clear H. split; [exact HD|]. split; [apply dmono_refl|].
         cbn [CleanK]. apply Hclean. intros ti Hx. split; [exact Hx | discriminate].
     - (* CFkRestrict *)
-      destruct Hroot as [Hnc Hr].
       destruct (get_set sch st s x b) eqn:Egs; [|discriminate]. inversion H; subst st' evs'. clear H.
       split; [exact HD|]. split; [apply dmono_refl|]. cbn [CleanK].
       intros s' f nl y Hin' Hg Hne Hp Hf.
-      pose proof (HF s' f s b nl y x Hin' Hg Hp Hf Hne) as Hy.
-      unfold get_set in Egs. unfold eset in Hy. rewrite Hr in Egs. destruct (get_ent st s x); [rewrite Egs in Hy|]; exact Hy.
+      destruct (HF s' f s b nl y x Hin' Hg Hp Hf Hne) as [Hy _].
+      unfold get_set in Egs. unfold eset in Hy. destruct (get_ent st (root_of sch s) x); [rewrite Egs in Hy|]; exact Hy.
     - (* CFkCons *)
       inversion H; subst st' evs'. split; [exact HD|]. split; [apply dmono_refl | exact I].
     - (* CFkCascade *)
@@ -247,24 +242,24 @@ Section Delete.
   Qed.
 
   (* ---- link cleanup ---- *)
-  Lemma cleanup_inner (G : gset) s0 x lf os of_ : In (lf, os, of_) (links_of sch s0) -> G s0 x ->
+  Lemma cleanup_inner (G : gset) s0 x lf os of_ : In (lf, os, of_) (links_of sch s0) -> G (root_of sch s0) x ->
     forall ts acc, DInv G acc ->
     let acc' := fold_left (fun acc2 oi => backref_del sch acc2 os oi of_ x) ts acc in
     DInv G acc' /\ dmono acc acc' /\
-    (forall t', In x (eset acc' os t' of_) -> In x (eset acc os t' of_) /\ ~ In t' ts).
+    (forall t', In x (eset acc' (root_of sch os) t' of_) -> In x (eset acc (root_of sch os) t' of_) /\ ~ In t' ts).
   Proof.
-    intros Hl HG. destruct (wp_link_root sch W _ _ _ _ Hl) as [Hs0 Hos]. pose proof (isroot_root os Hos) as Hro.
+    intros Hl HG.
     pose proof (wp_link_sym sch W _ _ _ _ Hl) as Hsym.
     induction ts as [|t ts IH]; intros acc HD; cbn [fold_left].
     - split; [exact HD|]. split; [apply dmono_refl|]. intros t' H. split; [exact H | intros []].
-    - destruct (DInv_backref_del G acc os t of_ x Hos) as [A B]; [| | |exact HD|].
-      + intros f0 Hf0. eapply (wp_disj_sl sch W); eauto.
-      + intros s1 f1 nl1 Hin1. exfalso. eapply (wp_disj_bl sch W); [exact Hin1 | exact Hsym | reflexivity].
-      + intros s1 lf1 Hl1. apply (wp_link_sym sch W) in Hl1.
-        destruct (wp_link_uniq sch W _ _ _ _ _ _ Hl1 Hsym) as [-> _]. exact HG.
+    - destruct (DInv_backref_del_gen G acc os t of_ x) as [A B]; [| | |exact HD|].
+      + intros s1 f0 Hf0 Hr0. eapply (wp_disj_sl sch W); [exact Hf0 | exact Hsym | symmetry; exact Hr0].
+      + intros s1 f1 t1 nl1 Hin1 Hr1. exfalso. eapply (wp_disj_bl sch W); [exact Hin1 | exact Hsym | symmetry; exact Hr1 | reflexivity].
+      + intros s1 lf1 os1 Hl1 Hro1. apply (wp_link_sym sch W) in Hl1.
+        destruct (wp_link_uniq sch W _ _ _ _ _ _ _ Hl1 Hsym Hro1) as [_ [-> _]]. exact HG.
       + destruct (IH _ A) as [A2 [B2 C2]]. split; [exact A2|]. split; [eapply dmono_trans; eauto|].
         intros t' H. destruct (C2 t' H) as [H1 H2]. apply eset_backref_del in H1 as [H1 Hn]. split; [exact H1|].
-        intros [<-|Hin]; [|exact (H2 Hin)]. apply Hn. rewrite Hro. repeat split.
+        intros [<-|Hin]; [|exact (H2 Hin)]. apply Hn. repeat split.
   Qed.
 
   Lemma cleanup_links_spec (G : gset) st s0 x : G (root_of sch s0) x -> DInv G st ->
@@ -281,15 +276,14 @@ Section Delete.
     { induction ls as [|[[lf os] of_] ls IH]; intros acc Hincl HDa; cbn [fold_left].
       - split; [exact HDa|]. split; [apply dmono_refl | intros l []].
       - assert (In (lf, os, of_) (links_of sch s0)) as Hl by (rewrite Hlinks; apply Hincl; left; reflexivity).
-        destruct (wp_link_root sch W _ _ _ _ Hl) as [[_ Hrs0] Hos]. rewrite Hrs0 in HG.
         destruct (cleanup_inner G s0 x lf os of_ Hl HG (get_set sch acc s0 x lf) acc HDa) as [A [B C]].
         assert (incl ls (sd_links d)) as Hincl' by (intros y Hy; apply Hincl; right; exact Hy).
         destruct (IH _ Hincl' A) as [A2 [B2 C2]]. split; [exact A2|]. split; [eapply dmono_trans; eauto|].
         intros l [<-|Hin]; [|apply C2; exact Hin].
         eapply CleanL_mono; [exact B2|]. cbn [CleanL]. intros t' Hg Hx. destruct (C t' Hx) as [Hx0 Hnot]. apply Hnot.
         destruct HDa as [_ [_ [_ [_ [_ HL]]]]].
-        pose proof (HL os of_ s0 lf t' x (wp_link_sym sch W _ _ _ _ Hl) Hg Hx0) as Ht.
-        unfold get_set. unfold eset in Ht. rewrite Hrs0. exact Ht. }
+        destruct (HL os of_ s0 lf t' x (wp_link_sym sch W _ _ _ _ Hl) Hg Hx0) as [Ht _].
+        unfold get_set. unfold eset in Ht. exact Ht. }
     destruct (Hgen (sd_links d) st (incl_refl _) HD) as [A [B C]]. split; [exact A|]. split; [exact B|]. exact C.
   Qed.
 
@@ -327,7 +321,8 @@ Section Delete.
     children_delete sch oc del x cs cur flows = Ok (cur', flows') ->
     DInv G (fst cur') /\ dmono (fst cur) (fst cur') /\
     (forall d, In d cs -> present sch (fst cur') (sd_name d) x = true ->
-               forall k, In k (cons_of sch (sd_name d)) -> CleanK G (fst cur') (sd_name d) x k).
+               (forall k, In k (cons_of sch (sd_name d)) -> CleanK G (fst cur') (sd_name d) x k) /\
+               (forall l, In l (links_of sch (sd_name d)) -> CleanL G (fst cur') x l)).
   Proof.
     intros Hdel HG. induction cs as [|d cs IH]; intros cur flows cur' flows' Hcs HD H; cbn [children_delete] in H.
     - inversion H; subst. split; [exact HD|]. split; [apply dmono_refl|]. intros d [].
@@ -336,14 +331,15 @@ Section Delete.
       + destruct cur as [st evs].
         destruct (process_delete sch oc del (st, evs) (sd_name d) x) as [[st1 evs1]|e] eqn:E1; cbn [bind] in H; [|discriminate].
         assert (G (root_of sch (sd_name d)) x) as HG1 by (rewrite (Hcs d (or_introl eq_refl)); exact HG).
-        destruct (process_delete_spec G del x _ st evs st1 evs1 Hdel HG1 HD E1) as [HD1 [Hm1 [Hc1 _]]].
+        destruct (process_delete_spec G del x _ st evs st1 evs1 Hdel HG1 HD E1) as [HD1 [Hm1 [Hc1 Hl1]]].
         destruct (IH (st1, evs1) _ cur' flows' Hcs' HD1 H) as [HD2 [Hm2 Hc2]]. cbn [fst] in *.
         split; [exact HD2|]. split; [eapply dmono_trans; eauto|].
-        intros d0 [<-|Hin] Hp k Hk; [|eapply Hc2; eauto].
-        eapply CleanK_mono; [exact Hm2|]. apply Hc1. exact Hk.
+        intros d0 [<-|Hin] Hp; [|eapply Hc2; eauto]. split.
+        * intros k Hk. eapply CleanK_mono; [exact Hm2|]. apply Hc1. exact Hk.
+        * intros l Hl. eapply CleanL_mono; [exact Hm2|]. apply Hl1. exact Hl.
       + destruct (IH cur _ cur' flows' Hcs' HD H) as [HD2 [Hm2 Hc2]].
         split; [exact HD2|]. split; [exact Hm2|].
-        intros d0 [<-|Hin] Hp k Hk; [|eapply Hc2; eauto].
+        intros d0 [<-|Hin] Hp; [|eapply Hc2; eauto].
         exfalso. apply (dmono_present sch _ _ _ _ Hm2) in Hp. unfold loadable in El. rewrite Hp in El. discriminate.
   Qed.
 
@@ -378,7 +374,8 @@ Section Delete.
   Lemma del_ent_spec (G : gset) st R x : isroot sch R ->
     (forall s', root_of sch s' = R -> present sch st s' x = true ->
                 forall k, In k (cons_of sch s') -> CleanK (gadd G R x) st s' x k) ->
-    (forall l, In l (links_of sch R) -> CleanL (gadd G R x) st x l) ->
+    (forall s', root_of sch s' = R -> present sch st s' x = true ->
+                forall l, In l (links_of sch s') -> CleanL (gadd G R x) st x l) ->
     DInv (gadd G R x) st -> DInv G (del_ent st R x) /\ dmono st (del_ent st R x).
   Proof.
     intros HR HK HLk [HU [HS [HB [HF [HC HL]]]]]. pose proof HR as [HRc HRr].
@@ -395,13 +392,15 @@ Section Delete.
       repeat split; assumption.
     - (* SSound *)
       intros r f v j Hj. change (sbucket st' r f v) with (sbucket st r f v) in Hj.
-      destruct (HS r f v j Hj) as [A B]. split; [exact A|]. apply eset_del_ent. split; [exact B|].
-      intros [-> ->]. pose proof (present_of_ent st R x HR (eset_in_ent _ _ _ _ _ B)) as Hp.
-      exact (HK R HRr Hp _ A v Hj).
+      destruct (HS r f v j Hj) as [s0 [A0 [A [C B]]]].
+      assert (~ (root_of sch s0 = R /\ j = x)) as Hn.
+      { intros [E ->]. subst r. exact (HK s0 E C _ A v Hj). }
+      destruct (present_del_ent_other st R x s0 j Hn) as [P1 _]. fold st' in P1.
+      exists s0. rewrite P1. split; [exact A0|]. split; [exact A|]. split; [exact C|].
+      apply eset_del_ent. split; [exact B|]. rewrite <- A0. exact Hn.
     - (* BSound *)
       intros s f t b nl ti j Hin Hj. apply eset_del_ent in Hj as [Hj Hn].
       destruct (HB s f t b nl ti j Hin Hj) as [A [B C]].
-      destruct (wp_cons_root sch W s _ Hin) as [_ Hrs]. cbn in Hrs.
       assert (~ (root_of sch s = R /\ j = x)) as Hn2.
       { intros [A1 ->]. exact (HK s A1 B _ Hin ti Hj). }
       destruct (present_del_ent_other st R x s j Hn2) as [P1 P2]. unfold NoTraceInv.fbytes in *. unfold st'. rewrite P1, P2.
@@ -409,37 +408,51 @@ Section Delete.
     - (* FSound *)
       intros s f t b nl y v Hin Hg Hp Hf Hne. apply present_del_ent in Hp as [Hn Hp].
       destruct (present_del_ent_other st R x s y Hn) as [_ P2]. fold st' in P2. rewrite P2 in Hf.
-      destruct (wp_cons_root sch W s _ Hin) as [_ Hrs]. cbn in Hrs.
-      assert (~ gadd G R x s y) as Hg' by (apply Hng; [exact Hg | rewrite <- Hrs; exact Hn]).
-      pose proof (HF s f t b nl y v Hin Hg' Hp Hf Hne) as Hy.
-      apply eset_del_ent. split; [exact Hy|]. intros [-> ->].
-      pose proof (present_of_ent st R x HR (eset_in_ent _ _ _ _ _ Hy)) as Hpx.
-      destruct (wp_fk_guard sch W s f R b nl Hin) as [Hr|[c Hc]].
-      + exact (HK R HRr Hpx _ Hr s f nl y Hin Hg' Hne Hp Hf).
-      + refine (HK R HRr Hpx _ Hc y _ Hp Hf). rewrite Hrs. exact Hg'.
+      assert (~ gadd G R x (root_of sch s) y) as Hg' by (apply Hng; [exact Hg | exact Hn]).
+      destruct (HF s f t b nl y v Hin Hg' Hp Hf Hne) as [Hy Hpt].
+      assert (~ (root_of sch t = R /\ v = x)) as Hnt.
+      { intros [Hrt ->]. destruct (wp_fk_guard sch W s f t b nl Hin) as [Hr|[c Hc]].
+        - exact (HK t Hrt Hpt _ Hr s f nl y Hin Hg' Hne Hp Hf).
+        - exact (HK t Hrt Hpt _ Hc y Hg' Hp Hf). }
+      destruct (present_del_ent_other st R x t v Hnt) as [P3 _]. fold st' in P3. rewrite P3. split; [|exact Hpt].
+      apply eset_del_ent. split; [exact Hy | exact Hnt].
     - (* CSound *)
       intros s f t nl y v Hin Hg Hp Hf Hne. apply present_del_ent in Hp as [Hn Hp].
       destruct (present_del_ent_other st R x s y Hn) as [_ P2]. fold st' in P2. rewrite P2 in Hf.
-      destruct (wp_cons_root sch W s _ Hin) as [_ Hrs]. cbn in Hrs.
-      assert (~ gadd G R x s y) as Hg' by (apply Hng; [exact Hg | rewrite <- Hrs; exact Hn]).
-      pose proof (HC s f t nl y v Hin Hg' Hp Hf Hne) as Hy.
-      unfold st'. rewrite get_ent_del_ent. destruct (str_eqb R t && str_eqb x v) eqn:Eb; [|exact Hy].
-      apply andb_prop in Eb as [E1 E2]. apply str_eqb_eq in E1, E2. subst t v. exfalso.
-      pose proof (present_of_ent st R x HR Hy) as Hpx.
-      destruct (wp_fc_guard sch W s f R nl Hin) as [c Hc].
-      refine (HK R HRr Hpx _ Hc y _ Hp Hf). rewrite Hrs. exact Hg'.
+      assert (~ gadd G R x (root_of sch s) y) as Hg' by (apply Hng; [exact Hg | exact Hn]).
+      pose proof (HC s f t nl y v Hin Hg' Hp Hf Hne) as Hpt.
+      assert (~ (root_of sch t = R /\ v = x)) as Hnt.
+      { intros [Hrt ->]. destruct (wp_fc_guard sch W s f t nl Hin) as [c Hc].
+        exact (HK t Hrt Hpt _ Hc y Hg' Hp Hf). }
+      destruct (present_del_ent_other st R x t v Hnt) as [P3 _]. fold st' in P3. rewrite P3. exact Hpt.
     - (* LSound *)
       intros s lf os of_ i t Hin Hg Ht. apply eset_del_ent in Ht as [Ht Hn].
-      assert (~ gadd G R x s i) as Hg' by (apply Hng; assumption).
-      pose proof (HL s lf os of_ i t Hin Hg' Ht) as Hi.
-      apply eset_del_ent. split; [exact Hi|]. intros [-> ->].
+      assert (~ gadd G R x (root_of sch s) i) as Hg' by (apply Hng; assumption).
+      destruct (HL s lf os of_ i t Hin Hg' Ht) as [Hi [Hpi Hpt]].
       pose proof (wp_link_sym sch W _ _ _ _ Hin) as Hsym.
-      exact (HLk _ Hsym i Hg' Ht).
+      assert (~ (root_of sch os = R /\ t = x)) as Hnt.
+      { intros [Hro ->]. exact (HLk os Hro Hpt _ Hsym i Hg' Ht). }
+      assert (~ (root_of sch s = R /\ i = x)) as Hni by exact Hn.
+      destruct (present_del_ent_other st R x s i Hni) as [P1 _]. destruct (present_del_ent_other st R x os t Hnt) as [P2 _].
+      fold st' in P1, P2. rewrite P1, P2. split; [|split; assumption].
+      apply eset_del_ent. split; [exact Hi|]. exact Hnt.
     - intros r f v j Hj. exact Hj.
     - intros r f v j Hj. exact Hj.
     - intros r j f z Hz. apply eset_del_ent in Hz as [Hz _]. exact Hz.
     - intros r j. unfold st'. rewrite get_ent_del_ent. destruct (str_eqb R r && str_eqb x j); [exact I|].
       destruct (get_ent st r j) as [e|]; [|exact I]. exists e. repeat split.
+  Qed.
+
+  Lemma child_decl s' r0 : root_of sch s' = r0 -> s' <> r0 -> exists d, In d (children_of sch r0) /\ sd_name d = s'.
+  Proof.
+    intros Hrs Hne. unfold root_of in Hrs. destruct (find_store sch s') as [d|] eqn:Ef; [|congruence].
+    destruct (sd_parent d) as [p|] eqn:Ep; [|congruence]. subst p.
+    assert (In d sch /\ sd_name d = s') as [Hin Hn].
+    { clear - Ef. induction sch as [|d0 l IHl]; cbn in Ef; [discriminate|].
+      destruct (str_eqb (sd_name d0) s') eqn:E.
+      - inversion Ef; subst. apply str_eqb_eq in E. split; [left; reflexivity | exact E].
+      - destruct (IHl Ef) as [A B]. split; [right; exact A | exact B]. }
+    exists d. split; [|exact Hn]. unfold children_of. apply filter_In. split; [exact Hin|]. rewrite Ep. apply str_eqb_refl.
   Qed.
 
   (* DeleteById, for every amount of fuel *)
@@ -468,18 +481,11 @@ Section Delete.
       destruct (del_ent_spec G st2 r0 x HR) as [A B]; [| |exact HD2|].
       + intros s' Hrs Hp k Hk. destruct (str_eq_dec s' r0) as [->|Hne]; [apply Hc2; exact Hk|].
         (* a child store of r0 *)
-        assert (exists d, In d (children_of sch r0) /\ sd_name d = s') as [d [Hd Hdn]].
-        { unfold root_of in Hrs. unfold cons_of in Hk. destruct (find_store sch s') as [d|] eqn:Ef; [|contradiction].
-          destruct (sd_parent d) as [p|] eqn:Ep; [|congruence]. subst p.
-          assert (In d sch /\ sd_name d = s') as [Hin Hn].
-          { clear - Ef. induction sch as [|d0 l IHl]; cbn in Ef; [discriminate|].
-            destruct (str_eqb (sd_name d0) s') eqn:E.
-            - inversion Ef; subst. apply str_eqb_eq in E. split; [left; reflexivity | exact E].
-            - destruct (IHl Ef) as [A B]. split; [right; exact A | exact B]. }
-          exists d. split; [|exact Hn]. unfold children_of. apply filter_In. split; [exact Hin|]. rewrite Ep. apply str_eqb_refl. }
-        subst s'. eapply CleanK_mono; [exact Hm2|]. eapply Hc1; [exact Hd | | exact Hk].
-        eapply dmono_present; eauto.
-      + exact Hl2.
+        destruct (child_decl s' r0 Hrs Hne) as [d [Hd Hdn]].
+        subst s'. eapply CleanK_mono; [exact Hm2|]. eapply (proj1 (Hc1 d Hd (dmono_present sch _ _ _ _ Hm2 Hp))). exact Hk.
+      + intros s' Hrs Hp l Hl. destruct (str_eq_dec s' r0) as [->|Hne]; [apply Hl2; exact Hl|].
+        destruct (child_decl s' r0 Hrs Hne) as [d [Hd Hdn]].
+        subst s'. eapply CleanL_mono; [exact Hm2|]. eapply (proj2 (Hc1 d Hd (dmono_present sch _ _ _ _ Hm2 Hp))). exact Hl.
       + split; [exact A|]. split; [eapply dmono_trans; [exact Hm1 | eapply dmono_trans; [exact Hm2 | exact B]]|].
         rewrite get_ent_del_ent, !str_eqb_refl. reflexivity.
     - (* the entity vanished while its child stores were processed (cascade cycle) *)
@@ -489,10 +495,7 @@ Section Delete.
       split; [|split; [exact Hm1 | exact Hgone]].
       destruct (del_ent_spec G st1 r0 x HR) as [A _]; [| |exact HD1|].
       + intros s' Hrs Hp. exfalso. apply present_get_ent in Hp. rewrite Hrs in Hp. congruence.
-      + intros [[lf os] of_] Hl. cbn. intros t Hg Hx.
-        destruct HD1 as [_ [_ [_ [_ [_ HL]]]]].
-        pose proof (HL os of_ r0 lf t x (wp_link_sym sch W _ _ _ _ Hl) Hg Hx) as Ht.
-        unfold eset in Ht. rewrite Hgone in Ht. exact Ht.
+      + intros s' Hrs Hp. exfalso. apply present_get_ent in Hp. rewrite Hrs in Hp. congruence.
       + (* del_ent of an absent entity changes nothing observable *)
         destruct A as [HU [HS [HB [HF [HC HL]]]]].
         assert (Hge : forall r j, get_ent (del_ent st1 r0 x) r j = get_ent st1 r j).
@@ -504,11 +507,11 @@ Section Delete.
         refine (conj _ (conj _ (conj _ (conj _ (conj _ _))))).
         * intros r f v j Hj. destruct (HU r f v j Hj) as [s [nl [A1 [A2 [A3 [A4 A5]]]]]]. exists s, nl.
           unfold NoTraceInv.fbytes in *. rewrite Hp, Hgf in *. repeat split; assumption.
-        * intros r f v j Hj. destruct (HS r f v j Hj) as [A1 A2]. rewrite Hes in A2. split; assumption.
+        * intros r f v j Hj. destruct (HS r f v j Hj) as [sO [A0 [A1 [A3 A2]]]]. rewrite Hes in A2. rewrite Hp in A3. exists sO. repeat split; assumption.
         * intros s f t b nl ti j Hin Hj. rewrite <- Hes in Hj. destruct (HB s f t b nl ti j Hin Hj) as [A1 [A2 A3]].
           unfold NoTraceInv.fbytes in *. rewrite Hp, Hgf in *. repeat split; assumption.
-        * intros s f t b nl y v Hin Hg Hpy Hf Hne. rewrite <- Hes. apply (HF s f t b nl y v Hin Hg); [rewrite Hp | rewrite Hgf |]; assumption.
-        * intros s f t nl y v Hin Hg Hpy Hf Hne. rewrite <- Hge. apply (HC s f t nl y v Hin Hg); [rewrite Hp | rewrite Hgf |]; assumption.
-        * intros s lf os of_ i t Hin Hg Ht. rewrite <- Hes. apply (HL s lf os of_ i t Hin Hg). rewrite Hes. exact Ht.
+        * intros s f t b nl y v Hin Hg Hpy Hf Hne. rewrite <- Hes, <- Hp. apply (HF s f t b nl y v Hin Hg); [rewrite Hp | rewrite Hgf |]; assumption.
+        * intros s f t nl y v Hin Hg Hpy Hf Hne. rewrite <- Hp. apply (HC s f t nl y v Hin Hg); [rewrite Hp | rewrite Hgf |]; assumption.
+        * intros s lf os of_ i t Hin Hg Ht. rewrite <- Hes, <- !Hp. apply (HL s lf os of_ i t Hin Hg). rewrite Hes. exact Ht.
   Qed.
 End Delete.
